@@ -255,6 +255,31 @@ def build_pool() -> dict:
             for seed, c in counts.items():
                 if c > low and len([1 for x in retry_cases if x[0] == cc and x[2] == use_registry]) < 3:
                     retry_cases.append([cc, seed, use_registry, {}])
+    # pinned combinations for which every internal attempt fails: the documented overflow error (a *failing* call
+    # whose failure comes from inside the retry loop)
+    from schwifty.exceptions import GenerateRandomOverflowError
+
+    for key in sorted(k for k in checksum.algorithms if k.endswith(":default")):
+        cc = key.split(":", 1)[0]
+        if cc not in spec or not pool["components"].get(cc):
+            continue
+        bank, branch, acct, _ = pool["components"][cc][0]
+        r = random.Random("overflow:" + cc)
+        found = 0
+        for _ in range(25):
+            pinned_acct = "".join(r.choice("0123456789") if ch.isdigit() else ch for ch in acct)
+            pins = {"bank_code": bank, "account_code": pinned_acct}
+            if branch:
+                pins["branch_code"] = branch
+            try:
+                IBAN.random(cc, random=random.Random(5), use_registry=True, **pins)
+            except GenerateRandomOverflowError:
+                retry_cases.append([cc, 5, True, pins])
+                found += 1
+                if found == 2:
+                    break
+            except Exception:  # noqa: BLE001
+                break
     pool["retry_cases"] = retry_cases
 
     # ---- seeded random cases -------------------------------------------------------------------
